@@ -80,6 +80,16 @@ var activeKF *KnownFindings
 var activeProp string
 var activeRepo = "/repo"
 var mustFail []seedResult
+var replaysDone int
+
+func maxReplays() int {
+	if v := os.Getenv("RVC_MAX_REPLAYS"); v != "" {
+		if n, err := strconv.Atoi(v); err == nil {
+			return n
+		}
+	}
+	return 12
+}
 
 type checkResult struct {
 	vcs        []*VC
@@ -383,8 +393,13 @@ func report(prop, tier string, seed int, ip *InvProp, res *checkResult, partial 
 			nofail := true
 			if ob.Status == "refuted" {
 				payload["model"] = modelSummary(ob.Model, 200)
-				rp := tryReplay(vc, ob, payload)
-				nofail = !rp
+				if replaysDone < maxReplays() {
+					replaysDone++
+					rp := tryReplay(vc, ob, payload)
+					nofail = !rp
+				} else {
+					payload["replay"] = fmt.Sprintf("not attempted: more than %d refuted obligations in this run (the first ones were replayed)", maxReplays())
+				}
 			}
 			addViol(ob.ID, payload, nofail)
 		}
